@@ -22,7 +22,9 @@ BOUND = ("distributions: Uniform on 5 intervals, Triangle on 5 (interval, peak) 
          "refinement-tree grids with 3..40 points per dimension grown by random / one-sided interval splitting (no interval refined more than 20 times), dyadic or weighted-midpoint, handed to "
          "set_grid at <=4 stages of the growth; quick 120, thorough ~3000 weight cases. Moments: real SpatiallyAdaptiveSingleDimensions2 + "
          "ErrorCalculatorSingleDimVolumeGuided, d in {1,2} (thorough: also 3), lmax in {2,3}, max_evaluations in 8..160 (refinement histories of 0..6+ "
-         "steps), 4 model shapes g, random c, e, K; quick 40, thorough ~700 runs")
+         "steps), 35% of the runs continued to a second stop with continue_adaptive_refinement, 4 model shapes g, random c, e, K; every stop is queried "
+         "4-5 times (default path twice, node-based path, moment queries, default path again) and the stored solutions of all evaluations once; "
+         "quick 40 (+3 repeated at the end), thorough ~700 (+12) runs")
 RULE = (BOUND + "; a case is one (distribution set-up, boundary flag, tree seed) resp. one (set-up, model, c, e, K, refinement limits); non-trivial = at "
         "least 4 points in some dimension resp. at least one refinement beyond the initial scheme. Tolerances: weight sums abs tol_w = 1e-12 + 200*eps*max(1,|x|)/h_min (the code's w2 = (M1-M0*x1)/h amplifies the rounding of the moments by 1/h; "
         "1e-12..1e-8 in this universe); uniform weights rel 1e-9 + tol_w; "
@@ -39,7 +41,7 @@ CLAUSES = {
     "B.grid.component": "after real refinement every component grid's point weights are >= 0 and sum to 1; the combined weights sum to 1",
     "B.w.idempotent": "history: get_mid_point asked twice gives the same point; set_grid with the same tree after the grid object served another tree of the same size gives the same weights; a brand-new operation+grid gives the same weights; weight arrays handed out earlier are unchanged",
     "B.mom.combined_rule": "at every stop E == sum_i w_i g(x_i) and Var == |sum_i w_i g(x_i)^2 - E^2| for the public combined rule get_points_and_weights() (model evaluated by the harness), for all three components",
-    "B.mom.idempotent": "every further statistics query on the same evaluated instance (after the node-based query, calculate_expectation, calculate_moment, get_points_and_weights) returns the values of the first query; get_result() is unchanged by the queries; calculate_multiple_expectation_and_variance twice gives the same",
+    "B.mom.idempotent": "every further statistics query on the same evaluated instance (after the node-based query, node-based calculate_expectation / calculate_moment, get_points_and_weights) returns the values of the first query; get_result() is unchanged by the queries; calculate_multiple_expectation_and_variance twice gives the same",
     "B.mom.report_stable": "E / Var objects handed out by a query (kept without copying) still hold the reported values after later queries and after continue_adaptive_refinement",
     "B.mom.repeatable": "the same configuration run again later in the same process (other configurations in between) on fresh objects gives the same E, Var and point count",
     "B.mom.returns": "refinement and calculate_expectation_and_variance return normally",
@@ -184,7 +186,8 @@ def check_weights(ctx, grid, grids, a, b, dist, boundary, wc):
             grid.set_grid([list(g) for g in grids], [[0] * len(g) for g in grids])
         done = True
     if not done:
-        return
+        return None
+    result = [np.array([float(x) for x in grid.weights[k]]) for k in range(d)]
     wc0 = wc
     for k in range(d):
         wc = wc0 + dist[k][0] + "/"
@@ -219,6 +222,7 @@ def check_weights(ctx, grid, grids, a, b, dist, boundary, wc):
                 exp = t[1:-1] / np.sum(t[1:-1])
                 ok = close(w, exp, 1e-9, tol)
             ctx.check("B.w.uniform", ok, S_W, wc + "uniform", "grid %s boundary=%s: weights %s, trapezoidal/(b-a) %s" % (g, boundary, w, exp))
+    return result
 
 
 def run_weights(ctx, setup, tree, n, seed, family=""):
@@ -229,42 +233,76 @@ def run_weights(ctx, setup, tree, n, seed, family=""):
     d = len(a)
     boundary = bool(setup["boundary"])
     cdfs = [oracle_cdf(dist[k], a[k], b[k]) for k in range(d)]
-    grids = [[float(a[k]), float(b[k])] for k in range(d)]
-    depth = [[0] for k in range(d)]          # depth[k][i]: refinement depth of the interval (grids[k][i], grids[k][i+1])
-    targets = [max(3, rng.randint(3, n)) if k > 0 else n for k in range(d)]
-    style = rng.choice(["random", "random", "left", "right", "ends"])
+    targets0 = [max(3, rng.randint(3, n)) if k > 0 else n for k in range(d)]
     stages = sorted(set([3, max(3, n // 3), max(3, (2 * n) // 3), n]))
-    size = 2
-    while size < max(targets):
+
+    def grow(style, staged):
+        """Grow one refinement tree per dimension up to the target sizes; returns the 1-D grids."""
+        grids = [[float(a[k]), float(b[k])] for k in range(d)]
+        depth = [[0] for k in range(d)]          # depth[k][i]: refinement depth of the interval (grids[k][i], grids[k][i+1])
+        targets = list(targets0)
+        size = 2
+        while size < max(targets):
+            for k in range(d):
+                g = grids[k]
+                if len(g) >= targets[k]:
+                    continue
+                cand = [i for i in range(len(g) - 1) if depth[k][i] < MAX_DEPTH]
+                if style == "left" and rng.random() < 0.8:
+                    i = cand[0]
+                elif style == "right" and rng.random() < 0.8:
+                    i = cand[-1]
+                elif style == "ends" and rng.random() < 0.67:
+                    i = rng.choice([cand[0], cand[-1]])
+                else:
+                    i = rng.choice(cand)
+                l, r = g[i], g[i + 1]
+                mid = check_mid(ctx, grid, l, r, k, cdfs[k], wc + dist[k][0] + "/")
+                if tree == "dyadic" and not (math.isinf(l) or math.isinf(r)):
+                    mid = 0.5 * (l + r)
+                if mid is None or not l < mid < r:
+                    depth[k][i] = MAX_DEPTH      # violation already recorded; do not try this interval again
+                    if all(x >= MAX_DEPTH for x in depth[k]):
+                        targets[k] = len(g)
+                    continue
+                g.insert(i + 1, float(mid))
+                depth[k][i] += 1
+                depth[k].insert(i + 1, depth[k][i])
+            size += 1
+            if staged and size in stages and all(len(g) >= 3 for g in grids):
+                check_weights(ctx, grid, grids, a, b, dist, boundary, wc)
+        return grids
+
+    style = rng.choice(["random", "random", "left", "right", "ends"])
+    grids = grow(style, True)
+    first = check_weights(ctx, grid, grids, a, b, dist, boundary, wc)
+    if first is None:
+        return
+    refs = [grid.weights[k] for k in range(d)]          # the arrays the grid handed out, not copied
+    # history: the same grid / operation objects serve another tree of the same size, then the first tree again
+    other = grow(rng.choice(["random", "left", "right", "ends"]), False)
+    if check_weights(ctx, grid, other, a, b, dist, boundary, wc) is None:
+        return
+    kinds = "+".join(sorted(set(x[0] for x in dist)))
+    done = False
+    with ctx.guard("B.w.returns", S_W, wc + kinds + "/raises-again"):
+        with quiet():
+            grid.set_grid([list(g) for g in grids], [[0] * len(g) for g in grids])
+            again = [np.array([float(x) for x in grid.weights[k]]) for k in range(d)]
+            f2, op2, grid2, a2, b2, dist2 = build(setup)
+            grid2.set_grid([list(g) for g in grids], [[0] * len(g) for g in grids])
+            fresh = [np.array([float(x) for x in grid2.weights[k]]) for k in range(d)]
+        done = True
+    if done:
         for k in range(d):
-            g = grids[k]
-            if len(g) >= targets[k]:
-                continue
-            cand = [i for i in range(len(g) - 1) if depth[k][i] < MAX_DEPTH]
-            if style == "left" and rng.random() < 0.8:
-                i = cand[0]
-            elif style == "right" and rng.random() < 0.8:
-                i = cand[-1]
-            elif style == "ends" and rng.random() < 0.67:
-                i = rng.choice([cand[0], cand[-1]])
-            else:
-                i = rng.choice(cand)
-            l, r = g[i], g[i + 1]
-            mid = check_mid(ctx, grid, l, r, k, cdfs[k], wc + dist[k][0] + "/")
-            if tree == "dyadic" and not (math.isinf(l) or math.isinf(r)):
-                mid = 0.5 * (l + r)
-            if mid is None or not l < mid < r:
-                depth[k][i] = MAX_DEPTH      # violation already recorded; do not try this interval again
-                if all(x >= MAX_DEPTH for x in depth[k]):
-                    targets[k] = len(g)
-                continue
-            g.insert(i + 1, float(mid))
-            depth[k][i] += 1
-            depth[k].insert(i + 1, depth[k][i])
-        size += 1
-        if size in stages and all(len(g) >= 3 for g in grids):
-            check_weights(ctx, grid, grids, a, b, dist, boundary, wc)
-    check_weights(ctx, grid, grids, a, b, dist, boundary, wc)
+            wk = wc + dist[k][0] + "/"
+            ctx.check("B.w.idempotent", again[k].shape == first[k].shape and close(again[k], first[k], 1e-13, 1e-16), S_W, wk + "same-tree-after-other-tree",
+                      "grid %s: weights %s, after serving another tree %s" % (grids[k], first[k], again[k]))
+            ctx.check("B.w.idempotent", fresh[k].shape == first[k].shape and close(fresh[k], first[k], 1e-13, 1e-16), S_W, wk + "fresh-object-differs",
+                      "grid %s: weights of the used objects %s, of brand-new objects %s" % (grids[k], first[k], fresh[k]))
+            now = np.array([float(x) for x in refs[k]])
+            ctx.check("B.w.idempotent", now.shape == first[k].shape and bool(np.array_equal(now, first[k])), S_W, wk + "earlier-weights-changed",
+                      "weights handed out for %s were %s and are now %s" % (grids[k], first[k], now))
 
 
 def weights_case(ctx, setup, tree, n, seed, family=""):
@@ -287,7 +325,25 @@ def model_g(name):
     raise KeyError(name)
 
 
-def run_moments(ctx, setup, model, c, e, K, lmax, maxev, vw):
+def check_stats(ctx, E, V, c, e, K, G, spanning, path):
+    """The statement's relations for one (E, Var) answer; `path` names the query that produced it."""
+    sfx = ("/" + path) if path else ""
+    s = abs(c) * G + abs(e)
+    ctx.check("B.mom.var_nonneg", bool(np.all(V >= 0.0)), S_MOM, "negative" + sfx, "Var %s" % V)
+    ctx.check("B.mom.affine_E", abs(E[1] - (c * E[0] + e)) <= 1e-9 * s, S_MOM, "affine-E" + sfx,
+              "E[g]=%r E[cg+e]=%r c=%r e=%r (difference %.3e, tolerance %.1e)" % (E[0], E[1], c, e, E[1] - (c * E[0] + e), 1e-9 * s))
+    ctx.check("B.mom.affine_Var", abs(V[1] - c * c * V[0]) <= 1e-9 * s * s, S_MOM, "affine-Var" + sfx,
+              "Var[g]=%r Var[cg+e]=%r c=%r e=%r (difference %.3e, tolerance %.1e)" % (V[0], V[1], c, e, V[1] - c * c * V[0], 1e-9 * s * s))
+    if spanning:
+        ctx.check("B.mom.constant", abs(E[2] - K) <= 1e-9 * abs(K) and V[2] <= 1e-9 * K * K, S_MOM, "constant" + sfx,
+                  "K=%r: E=%r Var=%r" % (K, E[2], V[2]))
+
+
+def _arr(x):
+    return np.array([float(v) for v in x], dtype=float)
+
+
+def run_moments(ctx, setup, model, c, e, K, lmax, maxev, vw, maxev2=None):
     from sparseSpACE.spatiallyAdaptiveSingleDimension2 import SpatiallyAdaptiveSingleDimensions2
     from sparseSpACE.ErrorCalculator import ErrorCalculatorSingleDimVolumeGuided
     g = model_g(model)
@@ -297,35 +353,112 @@ def run_moments(ctx, setup, model, c, e, K, lmax, maxev, vw):
         v = g(x)
         gmax[0] = max(gmax[0], abs(v))
         return [v, c * v + e, K]
+    store = {}
     done = False
     with ctx.guard("B.mom.returns", S_MOM, "raises"):
         with quiet():
             f, op, grid, a, b, dist = build(setup, vec, 3)
             op.set_expectation_variance_Function()
             ci = SpatiallyAdaptiveSingleDimensions2(a, b, operation=op, norm=2, use_volume_weighting=bool(vw), grid_surplusses=op.get_grid())
-            ci.performSpatiallyAdaptiv(1, lmax, ErrorCalculatorSingleDimVolumeGuided(), tol=0, max_evaluations=maxev, print_output=False, do_plot=False)
-            E, V = op.calculate_expectation_and_variance(ci)
+            ci.performSpatiallyAdaptiv(1, lmax, ErrorCalculatorSingleDimVolumeGuided(), tol=0, max_evaluations=maxev, print_output=False, do_plot=False,
+                                       solutions_storage=store)
         done = True
     if not done:
-        return
-    E = np.array(E, dtype=float)
-    V = np.array(V, dtype=float)
-    ok_shape = E.shape == (3,) and V.shape == (3,)
-    ctx.check("B.mom.returns", ok_shape, S_MOM, "shape", "E %s Var %s" % (E, V))
-    if not ok_shape:
-        return
-    G = gmax[0]
-    s = abs(c) * G + abs(e)
+        return None
     d = len(a)
     spanning = all(spans_support(dist[k], a[k], b[k]) for k in range(d)) or not setup["boundary"]
-    ctx.check("B.mom.var_nonneg", bool(np.all(V >= 0.0)), S_MOM, "negative", "Var %s" % V)
-    ctx.check("B.mom.affine_E", abs(E[1] - (c * E[0] + e)) <= 1e-9 * s, S_MOM, "affine-E",
-              "E[g]=%r E[cg+e]=%r c=%r e=%r (difference %.3e, tolerance %.1e)" % (E[0], E[1], c, e, E[1] - (c * E[0] + e), 1e-9 * s))
-    ctx.check("B.mom.affine_Var", abs(V[1] - c * c * V[0]) <= 1e-9 * s * s, S_MOM, "affine-Var",
-              "Var[g]=%r Var[cg+e]=%r c=%r e=%r (difference %.3e, tolerance %.1e)" % (V[0], V[1], c, e, V[1] - c * c * V[0], 1e-9 * s * s))
-    if spanning:
-        ctx.check("B.mom.constant", abs(E[2] - K) <= 1e-9 * abs(K) and V[2] <= 1e-9 * K * K, S_MOM, "constant",
-                  "K=%r: E=%r Var=%r" % (K, E[2], V[2]))
+    kept = []         # (what, object handed out, copy at report time)
+    summary = None
+    for stop in range(2 if maxev2 else 1):
+        tag = "" if stop == 0 else "stop2"
+        pre = (tag + "-") if tag else ""
+        if stop == 1:
+            ok = False
+            with ctx.guard("B.mom.returns", "sparseSpACE.spatiallyAdaptiveBase:SpatiallyAdaptivBase.continue_adaptive_refinement", "raises-continue"):
+                with quiet():
+                    ci.continue_adaptive_refinement(tol=0, max_evaluations=maxev2)
+                ok = True
+            if not ok:
+                break
+        ok = False
+        with ctx.guard("B.mom.returns", S_MOM, "raises" + ("/" + tag if tag else "")):
+            with quiet():
+                res0 = np.array(op.get_result(), dtype=float, copy=True)
+                E_obj, V_obj = op.calculate_expectation_and_variance(ci)
+            ok = True
+        if not ok:
+            break
+        E, V = _arr(E_obj), _arr(V_obj)
+        ok_shape = E.shape == (3,) and V.shape == (3,)
+        ctx.check("B.mom.returns", ok_shape, S_MOM, "shape", "E %s Var %s" % (E, V))
+        if not ok_shape:
+            break
+        kept.append(("E" + ("/" + tag if tag else ""), E_obj, E.copy()))
+        kept.append(("Var" + ("/" + tag if tag else ""), V_obj, V.copy()))
+        G = gmax[0]
+        check_stats(ctx, E, V, c, e, K, G, spanning, tag)
+        # definition: the public combined rule, model evaluated by the harness
+        ok = False
+        with ctx.guard("B.mom.combined_rule", "sparseSpACE.StandardCombi:StandardCombi.get_points_and_weights", "raises"):
+            with quiet():
+                P, W = ci.get_points_and_weights()
+            ok = True
+        if ok:
+            vals = np.array([[g(tuple(p)), c * g(tuple(p)) + e, K] for p in P], dtype=float)
+            W = np.asarray(W, dtype=float)
+            m1 = W @ vals
+            m2 = W @ vals ** 2
+            sc = np.array([G, abs(c) * G + abs(e), abs(K)]) * float(np.sum(np.abs(W))) + 1e-300
+            ctx.check("B.mom.combined_rule", bool(np.all(np.abs(E - m1) <= 1e-9 * sc)), S_MOM, pre + "E-vs-rule",
+                      "E %s, combined rule gives %s (%d points)" % (E, m1, len(P)))
+            ctx.check("B.mom.combined_rule", bool(np.all(np.abs(V - np.abs(m2 - m1 ** 2)) <= 1e-9 * sc * sc)), S_MOM, pre + "Var-vs-rule",
+                      "Var %s, combined rule gives %s (%d points)" % (V, np.abs(m2 - m1 ** 2), len(P)))
+        # the same question again, other queries in between
+        ok = False
+        with ctx.guard("B.mom.idempotent", S_MOM, pre + "raises-later-query"):
+            with quiet():
+                E2, V2 = [_arr(x) for x in op.calculate_expectation_and_variance(ci)]
+                En, Vn = [_arr(x) for x in op.calculate_expectation_and_variance(ci, use_combiinstance_solution=False)]
+                op.calculate_expectation(ci, use_combiinstance_solution=False)
+                op.calculate_moment(ci, k=2, use_combiinstance_solution=False)
+                E3, V3 = [_arr(x) for x in op.calculate_expectation_and_variance(ci)]
+                res1 = np.array(op.get_result(), dtype=float, copy=True)
+            ok = True
+        if ok:
+            ctx.check("B.mom.idempotent", close(E2, E, 1e-12, 0.0) and close(V2, V, 1e-12, 0.0), S_MOM, pre + "second-query",
+                      "first query E %s Var %s; second query E %s Var %s" % (E, V, E2, V2))
+            ctx.check("B.mom.idempotent", close(E3, E, 1e-12, 0.0) and close(V3, V, 1e-12, 0.0), S_MOM, pre + "query-after-other-queries",
+                      "first query E %s Var %s; after node-based / moment queries E %s Var %s" % (E, V, E3, V3))
+            ctx.check("B.mom.idempotent", res1.shape == res0.shape and bool(np.array_equal(res0, res1)), S_MOM, pre + "stored-result-changed",
+                      "get_result() before the queries %s, after %s" % (res0, res1))
+            check_stats(ctx, E2, V2, c, e, K, G, spanning, pre + "query2")
+            check_stats(ctx, En, Vn, c, e, K, gmax[0], spanning, pre + "nodes-path")
+        for (what, obj, cp) in kept:
+            now = _arr(obj)
+            ctx.check("B.mom.report_stable", now.shape == cp.shape and bool(np.array_equal(now, cp)), S_MOM, "changed-" + what + ("-at-" + tag if tag else ""),
+                      "%s handed out earlier was %s and is now %s" % (what, cp, now))
+        summary = (E.copy(), V.copy(), int(ci.get_total_num_points()))
+    if summary is None:
+        return None
+    E, V = summary[0], summary[1]
+    G = gmax[0]
+    # stored solutions of all evaluations of this run
+    if store:
+        ok = False
+        with ctx.guard("B.mom.idempotent", "sparseSpACE.GridOperation:UncertaintyQuantificationTesting.calculate_multiple_expectation_and_variance", "raises-multiple"):
+            with quiet():
+                m_a = [(k, _arr(x), _arr(y)) for k, x, y in op.calculate_multiple_expectation_and_variance(store)]
+                m_b = [(k, _arr(x), _arr(y)) for k, x, y in op.calculate_multiple_expectation_and_variance(store)]
+            ok = True
+        if ok:
+            same = len(m_a) == len(m_b) and all(x[0] == y[0] and close(x[1], y[1], 1e-12, 0.0) and close(x[2], y[2], 1e-12, 0.0) for x, y in zip(m_a, m_b))
+            ctx.check("B.mom.idempotent", same, S_MOM, "multiple-second-call", "first %s second %s" % (m_a[-1:], m_b[-1:]))
+            for (k, Ek, Vk) in m_a[-3:]:
+                if Ek.shape == (3,) and Vk.shape == (3,):
+                    check_stats(ctx, Ek, Vk, c, e, K, G, spanning, "multiple")
+            last = m_a[-1]
+            ctx.check("B.mom.idempotent", close(last[1], E, 1e-12, 0.0) and close(last[2], V, 1e-12, 0.0), S_MOM, "multiple-last-vs-final",
+                      "stored solution of the last evaluation gives E %s Var %s, the final query gave E %s Var %s" % (last[1], last[2], E, V))
     # the grids the real refinement produced
     ok_done = False
     with ctx.guard("B.grid.component", "sparseSpACE.spatiallyAdaptiveSingleDimension2:SpatiallyAdaptiveSingleDimensions2.get_points_and_weights_component_grid", "raises"):
@@ -343,12 +476,34 @@ def run_moments(ctx, setup, model, c, e, K, lmax, maxev, vw):
         objs = ci.refinement.get_refinement_container_for_dim(k).get_objects()
         for o in objs[:12]:
             check_mid(ctx, grid, float(o.start), float(o.end), k, cdf, dist[k][0] + "/")
-    return len(ci.scheme)
+    # after everything: the final query once more, and the objects handed out
+    with ctx.guard("B.mom.idempotent", S_MOM, "raises-final-query"):
+        with quiet():
+            E4, V4 = [_arr(x) for x in op.calculate_expectation_and_variance(ci)]
+        ctx.check("B.mom.idempotent", close(E4, E, 1e-12, 0.0) and close(V4, V, 1e-12, 0.0), S_MOM, "query-at-the-end",
+                  "final stop: first query E %s Var %s; last query E %s Var %s" % (E, V, E4, V4))
+    for (what, obj, cp) in kept:
+        now = _arr(obj)
+        ctx.check("B.mom.report_stable", now.shape == cp.shape and bool(np.array_equal(now, cp)), S_MOM, "changed-" + what + "-at-end",
+                  "%s handed out earlier was %s and is now %s" % (what, cp, now))
+    return summary
 
 
-def moments_case(ctx, setup, model, c, e, K, lmax, maxev, vw):
-    ctx.case({"kind": "m", "setup": setup, "model": model, "c": c, "e": e, "K": K, "lmax": lmax, "maxev": maxev, "vw": vw}, nontrivial=maxev >= 12)
-    run_moments(ctx, setup, model, c, e, K, lmax, maxev, vw)
+_EARLIER = {}
+
+
+def moments_case(ctx, setup, model, c, e, K, lmax, maxev, vw, maxev2=None):
+    desc = {"kind": "m", "setup": setup, "model": model, "c": c, "e": e, "K": K, "lmax": lmax, "maxev": maxev, "vw": vw, "maxev2": maxev2}
+    ctx.case(desc, nontrivial=maxev >= 12)
+    res = run_moments(ctx, setup, model, c, e, K, lmax, maxev, vw, maxev2)
+    key = json.dumps(_jsonable(desc), sort_keys=True)
+    if res is not None and key in _EARLIER:
+        E0, V0, n0 = _EARLIER[key]
+        ctx.check("B.mom.repeatable", n0 == res[2] and close(E0, res[0], 1e-12, 0.0) and close(V0, res[1], 1e-12, 0.0), S_MOM, "second-run-differs",
+                  "first run: %d points E %s Var %s; run again later on fresh objects: %d points E %s Var %s" % (n0, E0, V0, res[2], res[0], res[1]))
+    elif res is not None:
+        _EARLIER[key] = res
+    return desc
 
 
 # ----------------------------------------------------------------------------------------------------------------
@@ -384,6 +539,8 @@ def run(ctx):
         weights_case(ctx, setup, tree, n, rng.randrange(10 ** 6))
     # moments
     nm = 40 if quick else 700
+    first_cases = []
+    _EARLIER.clear()
     for i in range(nm):
         if ctx.out_of_time(0.95):
             ctx.note("moment part cut short after %d runs" % i)
@@ -399,11 +556,21 @@ def run(ctx):
         K = rng.choice([3.0, -0.5, 0.0, 1000.0])
         lmax = rng.choice([2, 2, 3])
         maxev = rng.choice([8, 12, 20, 30, 45, 70, 100, 160] if d < 3 else [12, 30, 60, 100])
-        moments_case(ctx, setup, model, c, e, K, lmax, maxev, rng.random() < 0.5)
+        maxev2 = (maxev + rng.choice([10, 25, 60])) if rng.random() < 0.35 else None
+        desc = moments_case(ctx, setup, model, c, e, K, lmax, maxev, rng.random() < 0.5, maxev2)
+        if len(first_cases) < (3 if quick else 12):
+            first_cases.append(desc)
+    # the first configurations once more, after everything else ran in this process
+    for desc in first_cases:
+        if ctx.out_of_time(0.99):
+            break
+        moments_case(ctx, desc["setup"], desc["model"], desc["c"], desc["e"], desc["K"], desc["lmax"], desc["maxev"], desc["vw"], desc["maxev2"])
 
 
 def replay(ctx, case):
     if case["kind"] == "w":
         run_weights(ctx, case["setup"], case["tree"], case["n"], case["seed"], case.get("family", ""))
     else:
-        run_moments(ctx, case["setup"], case["model"], case["c"], case["e"], case["K"], case["lmax"], case["maxev"], case["vw"])
+        _EARLIER.clear()
+        for _ in range(2):      # twice: the second run evaluates B.mom.repeatable
+            moments_case(ctx, case["setup"], case["model"], case["c"], case["e"], case["K"], case["lmax"], case["maxev"], case["vw"], case.get("maxev2"))
